@@ -102,7 +102,7 @@ def _names(n, cols):
     return out
 
 
-def replay_wrapper(model, n=3, cols=LONG, cls="FlowProperties", frame=False, descending=False):
+def replay_wrapper(model, n=3, cols=LONG, cls="FlowProperties", frame=False, descending=False, int_cols=()):
     import warnings
     import numpy as np
     import pandas as pd
@@ -110,6 +110,16 @@ def replay_wrapper(model, n=3, cols=LONG, cls="FlowProperties", frame=False, des
     names = _names(n, cols)
     m = model_floats(model, names, default={k: 1.0 for k in names})
     t = _real_table(m, n, cols)
+    for c in int_cols:
+        # whole numbers in an integer-typed column (a CSV of whole psi, np.arange(...)**2): rounded, kept strictly increasing
+        if c in t:
+            q = [max(int(round(t[c][0])), 1)]
+            for v in t[c][1:]:
+                q.append(max(int(round(v)), q[-1] + 1))
+            t[c] = np.array(q, dtype="int64")
+            if c == "pressure":
+                for k in range(n):
+                    m[f"p{k}"] = float(q[k])
     if descending:
         t = {k: v[::-1].copy() for k, v in t.items()}
     before = {k: v.copy() for k, v in t.items()}
@@ -210,19 +220,24 @@ def replay_rescale(model, n=3, frame=True):
 
 # ------------------------------------------------------------------ jobs
 
-def job_wrapper(job, n, cols, cls, frame, descending=False):
+def job_wrapper(job, n, cols, cls, frame, descending=False, int_cols=()):
     mod = _load()
     job.encoded(mod, f"{cls}.__init__")
     job.stub("scipy.interpolate.interp1d: exact piecewise-linear model (searchsorted segment choice, fill values, "
              "bounds_error); warnings.warn: real")
     job.bound(table_rows=n)
     tab, ps, dom = _table(n, cols, frame=frame, descending=descending)
+    for c in int_cols:
+        if c in tab:
+            tab[c] = SymArray(list(tab[c].d), "i8")
+    if int_cols:
+        job.bound(integer_columns=f"{list(int_cols)} hold whole numbers in int64 columns")
     pi = fresh("pi", pos=True)
     q, q1, q2 = fresh("q"), fresh("q1"), fresh("q2")
     dom = dom + [T.b_le(P(ps[0]), P(q1)), T.b_lt(P(q1), P(q2)), T.b_le(P(q2), P(ps[-1])), T.b_le(P(pi), T.Poly.const(40000))]
     snap = _snapshot(tab)
-    tag = f"{cls}[{('labelled frame' if frame == 'labelled' else 'frame') if frame else 'dict'},{'alpha' if 'alpha' in cols else 'c-mu-z'},N={n}{',rows listed high to low' if descending else ''}]"
-    rp = (replay_wrapper, {"n": n, "cols": list(cols), "cls": cls, "frame": frame, "descending": descending})
+    tag = f"{cls}[{('labelled frame' if frame == 'labelled' else 'frame') if frame else 'dict'},{'alpha' if 'alpha' in cols else 'c-mu-z'},N={n}{',rows listed high to low' if descending else ''}{',int64 ' + '+'.join(int_cols) if int_cols else ''}]"
+    rp = (replay_wrapper, {"n": n, "cols": list(cols), "cls": cls, "frame": frame, "descending": descending, "int_cols": list(int_cols)})
     C = getattr(mod, cls)
     import warnings
 
@@ -240,7 +255,7 @@ def job_wrapper(job, n, cols, cls, frame, descending=False):
             fi = None
         return obj, f(q1), f(q2), fi, obj.alpha(q), changed
 
-    res = paths(job, run, dom, catch=(ValueError,), max_paths=256)
+    res = paths(job, run, dom, catch=(ValueError, SS.NonMonotoneAbscissae), max_paths=256)
     normal = 0
     inside = T.b_and(T.b_le(P(ps[0]), P(pi)), T.b_le(P(pi), P(ps[-1])))
     for k, pr in enumerate(res):
@@ -255,7 +270,7 @@ def job_wrapper(job, n, cols, cls, frame, descending=False):
         obj, f1, f2, fi, aq, changed = pr.value
         if changed:
             job.record(f"{tag}/caller's table untouched[path{k}]", "sat", 0.0, note=changed)
-            ok, details = replay_wrapper({}, n=n, cols=cols, cls=cls, frame=frame, descending=descending)
+            ok, details = replay_wrapper({}, n=n, cols=cols, cls=cls, frame=frame, descending=descending, int_cols=int_cols)
             job._violation(f"{tag}/caller's table untouched[path{k}]", {}, dict(details, what=changed, replayer="replay_wrapper",
                            replayer_kwargs=rp[1]), None)
         else:
@@ -457,6 +472,8 @@ def jobs(tier):
     out.append(("long-dict-3-descending", lambda j: job_wrapper(j, 3, LONG, "FlowProperties", False, True)))
     out.append(("alpha-dict-3-descending", lambda j: job_wrapper(j, 3, SHORT, "FlowProperties", False, True)))
     out.append(("simple-dict-3-descending", lambda j: job_wrapper(j, 3, ("pressure", "compressibility", "viscosity"), "FlowPropertiesSimple", False, True)))
+    out.append(("long-dict-3-int-pressure-pseudopressure", lambda j: job_wrapper(j, 3, LONG, "FlowProperties", False, False, ("pressure", "pseudopressure"))))
+    out.append(("alpha-dict-3-int-pressure-pseudopressure", lambda j: job_wrapper(j, 3, SHORT, "FlowProperties", False, False, ("pressure", "pseudopressure"))))
     out.append(("long-labelled-frame-3", lambda j: job_wrapper(j, 3, LONG, "FlowProperties", "labelled")))
     out.append(("alpha-labelled-frame-3", lambda j: job_wrapper(j, 3, SHORT, "FlowProperties", "labelled")))
     out.append(("rescale-labelled-frame", lambda j: job_rescale(j, 3, "labelled")))
